@@ -213,6 +213,48 @@ theorem accept_DnaString (C : Ctx) (t : Text) :
   intro x hx a b c
   rcases h2 x hx with ((h | h) | h) | h <;> simp_all
 
+theorem mapM_ok_mem {α β ε : Type} (f : α → Except ε β) :
+    ∀ (l : List α) (xs : List β), l.mapM f = .ok xs → ∀ a ∈ xs, ∃ p ∈ l, f p = .ok a := by
+  intro l
+  induction l with
+  | nil => intro xs h; simp [pure, Except.pure] at h; subst h; simp
+  | cons p ps ih =>
+    intro xs h a ha
+    simp only [List.mapM_cons, bind, Except.bind] at h
+    cases hf : f p with
+    | error e => simp [hf] at h
+    | ok b =>
+      cases hm : ps.mapM f with
+      | error e => simp [hf, hm] at h
+      | ok ys =>
+        simp [hf, hm, pure, Except.pure] at h
+        subst h
+        simp at ha
+        rcases ha with rfl | ha
+        · exact ⟨p, by simp, hf⟩
+        · obtain ⟨q, hq, hfq⟩ := ih ys hm a ha
+          exact ⟨q, by simp [hq], hfq⟩
+
+/-- an element the specification builds from a text without `;` is no text with `;` -/
+theorem elemBuild_noSep (S : SCtx) (elem : String) (p : Text) (a : Atom)
+    (h : elemBuild S elem p = some a) (hp : ';' ∉ p) : hasListSep a = false := by
+  unfold elemBuild at h
+  split at h
+  · split at h
+    · simp at h
+    · simp at h; subst h; simpa [hasListSep] using hp
+  · split at h
+    · cases hi : pyInt p <;> simp [hi] at h; subst h; rfl
+    · split at h
+      · simp only [enumOf, Option.map] at h
+        split at h <;> simp at h
+        subst h; rfl
+      · split at h
+        · simp only [enumOf, Option.map] at h
+          split at h <;> simp at h
+          subst h; rfl
+        · simp at h
+
 /-- the sequence shape: null spelling `""` ↦ `[]`, otherwise split on `;` and
     build / validate each element with the element class -/
 theorem accept_seq (C : Ctx) (sp : ColSpec) (es : ElemSpec) (elem : String) (t : Text)
@@ -238,7 +280,28 @@ theorem accept_seq (C : Ctx) (sp : ColSpec) (es : ElemSpec) (elem : String) (t :
     cases hm : (splitOn ';' t).mapM (runBuildAtom C es.enumCls es.buildChain) with
     | error e => simp [accAll]
     | ok xs =>
-      simp [ColSpec.elemInvalid, he, vSeq, accAll, hv, hn, hvc]
+      have hsep : ∀ a ∈ xs,
+          runValidate es.enumCls es.minV es.maxV (fun _ => true) es.validateChain (.atom a) = false →
+          hasListSep a = false := by
+        intro a ha hva
+        obtain ⟨p, hp, hfp⟩ := mapM_ok_mem _ _ _ hm a ha
+        have h1 := hfg p
+        simp only [accOf, hfp, hva] at h1
+        exact elemBuild_noSep _ _ _ _ h1.symm (not_mem_of_mem_splitOn ';' t p hp)
+      have hany : xs.any (fun a =>
+            runValidate es.enumCls es.minV es.maxV (fun _ => true) es.validateChain (.atom a) || hasListSep a)
+          = xs.any (fun a =>
+            runValidate es.enumCls es.minV es.maxV (fun _ => true) es.validateChain (.atom a)) := by
+        rw [Bool.eq_iff_iff, List.any_eq_true, List.any_eq_true]
+        constructor
+        · rintro ⟨a, ha, h⟩
+          refine ⟨a, ha, ?_⟩
+          cases hva : runValidate es.enumCls es.minV es.maxV (fun _ => true) es.validateChain (.atom a)
+          · simp [hsep a ha hva, hva] at h
+          · rfl
+        · rintro ⟨a, ha, h⟩
+          exact ⟨a, ha, by simp [h]⟩
+      simp [ColSpec.elemInvalid, he, vSeq, accAll, hv, hn, hvc, hany]
       by_cases hx : xs = []
       · simp [hx]
       · simp [hx]; split <;> simp_all
